@@ -448,15 +448,32 @@ func (s *SSEServer) handleSSE(w http.ResponseWriter, r *http.Request) {
 	// Send initial connection message.
 	stream.SendComment("connection established")
 
+	// The handlers below write to w, which net/http finishes and reuses as soon as this function
+	// returns: they are waited for before it does.
+	var writers sync.WaitGroup
+	defer writers.Wait()
+
 	// Start notification handler.
-	go handleNotifications(ctx, s.logger, w, flusher, session)
+	writers.Add(1)
+	go func() {
+		defer writers.Done()
+		handleNotifications(ctx, s.logger, w, flusher, session)
+	}()
 
 	// Start event queue handler.
-	go handleEventQueue(ctx, s.logger, w, flusher, session)
+	writers.Add(1)
+	go func() {
+		defer writers.Done()
+		handleEventQueue(ctx, s.logger, w, flusher, session)
+	}()
 
 	// Start keep-alive handler.
 	if s.keepAlive {
-		go handleKeepAlive(ctx, s.logger, w, flusher, session, s.keepAliveInterval)
+		writers.Add(1)
+		go func() {
+			defer writers.Done()
+			handleKeepAlive(ctx, s.logger, w, flusher, session, s.keepAliveInterval)
+		}()
 	}
 
 	// Wait for connection to close.
